@@ -516,6 +516,9 @@ class _Exporter:
         else:
             else_branch, then_branch = atts[1].g, atts[0].g
 
+        # A constant inlined in a branch is local to it: the other branch (or a later
+        # subgraph) may define the same ONNX name as a different value.
+        outer_constants = dict(self.constants)
         code.append(
             self._translate_graph_body(
                 then_branch,
@@ -524,6 +527,7 @@ class _Exporter:
             )
         )
         code.extend(self._emit_assign(node.output, then_branch.output, indent + 1))
+        self.constants = dict(outer_constants)
 
         code.append(f"{sindent}else:")
         code.append(
@@ -534,6 +538,7 @@ class _Exporter:
             )
         )
         code.extend(self._emit_assign(node.output, else_branch.output, indent + 1))
+        self.constants = outer_constants
         if not self._names_read.intersection(node.output):
             # No output is used: the converter rejects an `if` that defines no live variable.
             # ONNX nodes have no side effects, so the (checked) translation can be dropped.
@@ -625,6 +630,8 @@ class _Exporter:
                 "there is no stop condition."
             )
 
+        # A constant inlined in the loop body is local to the body.
+        outer_constants = dict(self.constants)
         rows.append(
             self._translate_graph_body(
                 body,
@@ -641,6 +648,7 @@ class _Exporter:
         elif use_loop_cond:
             rows.extend(self._emit_assign(cond_in, cond_out, indent + 1))
         rows.extend(self._emit_assign(formal_ins, formal_outs, indent + 1))
+        self.constants = outer_constants
         if break_last:
             rows.append(f"{sindent}{_SINGLE_INDENT}if {py_cond}:")
             rows.append(f"{sindent}{_SINGLE_INDENT * 2}break")
@@ -797,6 +805,7 @@ class _Exporter:
         for imported in funproto.opset_import:
             opsets[imported.domain] = imported.version
         self._attr_renaming = {}
+        self.constants = {}  # inlined constants are local to the function
         used_proto_names = _names_used_in_function(funproto)
         # Sorted: the renaming depends on the order in which names are first seen.
         renamed_names_used = [self._translate_onnx_var(x) for x in sorted(used_proto_names)]
@@ -834,6 +843,7 @@ class _Exporter:
             function_name = _cleanup_variable_name(graph.name)
         self._names_read = {x.name for x in graph.output}
         _update_names_read(self._names_read, graph.node)
+        self.constants = {}  # inlined constants of the functions translated before are not visible here
 
         result: list[str] = []
 
